@@ -36,3 +36,11 @@ Definition no_pawn_on_back_ranks (b : Board) : bool :=
 Definition wf_full (b : Board) : bool :=
   wfb b && rights_consistent b && ep_target_ok b && no_pawn_on_back_ranks b
   && negb (is_in_check b (opposite (current_turn b))).
+
+(* at most one king per colour (two kings of one colour would make "the king has moved" ambiguous:
+   the engine revokes castling rights on ANY king move, the rules on a move from e1/e8) *)
+Definition kings_ok (b : Board) : bool :=
+  Nat.leb (popcount (white_king (bbs b))) 1 && Nat.leb (popcount (black_king (bbs b))) 1.
+
+(* the hypothesis of the rules-level theorems *)
+Definition wf_rules (b : Board) : bool := wf_full b && kings_ok b.
